@@ -1078,6 +1078,21 @@ def replay_tokenizer(ctx, cands):
                 expv2 = [v for k, v in exp2 if k == 'value']
                 if got2 != expv2 or str(r2['result']).startswith(('err', 'panic')):
                     bad = True; c.replay = {'stdin_bytes': repr(ext), 'expected_values': expv2, 'actual_rows': got2, 'result': r2['result']}; break
+        if not bad and c.unmodelled and not env:
+            # the path went through arithmetic the executor does not interpret (a hand-written digit loop, float code): number spellings
+            # whose correctly rounded double is known, against the real binary
+            NUMS = ['10000000000000000000000000', '602214076000000000000000', '1' + '0' * 30, '1' + '0' * 40, '9' * 25, '123456789012345678901234567890', '18446744073709551616', '-9223372036854775809',
+                    '-18446744073709551615', '-18446744073709551616', '1e25', '6.02214076e23', '1E400', '0.1', '-0', '-', '- 5', '1.', '.5', '01', '1e', '2.5e-300', '4.9e-324', '1.7976931348623157e308']
+            for t in NUMS:
+                r3 = run_driver(ctx, ['--style', 'consise', '--on-error', 'stderr'], t.encode() + b' 7')
+                rows3 = show(r3['stdout']).splitlines()
+                exp3, comp3 = concrete_reference(t.encode() + b' 7')
+                want = [v for k, v in exp3 if k == 'value']
+                try: got3 = [json.loads(x) for x in rows3]
+                except Exception: got3 = rows3
+                def close(a, b): return a == b or (isinstance(a, (int, float)) and isinstance(b, (int, float)) and not isinstance(a, bool) and not isinstance(b, bool) and float(a) == float(b))
+                if comp3 and (len(got3) != len(want) or not all(close(a, b) for a, b in zip(got3, want))) and not any(isinstance(w, float) and w in (float('inf'), float('-inf')) for w in want):
+                    bad = True; c.replay = {'stdin_bytes': repr(t + ' 7'), 'expected_values': want, 'actual_rows': got3, 'result': r3['result']}; c.unmodelled = None; break
         c.status = 'reproduced' if bad else ('unit' if c.family in ('tok.consumed', 'tok.location', 'tok.progress', 'tok.garbage', 'tok.end', 'tok.io_error') else 'not-reproduced')
 
 
